@@ -185,6 +185,9 @@ func (g *Gen) mutateTopo(prev Topology, gen int, ever map[string]bool) (Topology
 		if usableCount(&t) < 3 {
 			continue
 		}
+		if g.R.Pct(40) {
+			t.Shuffle = g.R.Next() | 1 // the same nodes may be listed in another order in the next description
+		}
 		return t, what
 	}
 	return cloneTopo(prev), "none"
@@ -228,6 +231,45 @@ func genC14(g *Gen) {
 	ever := map[string]bool{}
 	for _, n := range base.Nodes {
 		ever[n.Addr] = true
+	}
+	if p.Variant == "return" {
+		// a replica the proxy knows drops out (flagged fail / link down / not listed) long enough for the proxy to have adopted
+		// that, then comes back listed as a plain connected replica while its INFO still says loading or master link down (a
+		// restarted replica during resync): it is newly discovered again and must not get reads.
+		base = g.StdTopology(m, g.R.Range(1, 2), g.R.Pct(40))
+		p.Topos = []Topology{base}
+		p.Proxy.DisableSlave = false
+		var reps []int
+		for i, n := range base.Nodes {
+			if !n.Master {
+				reps = append(reps, i)
+			}
+		}
+		ri := reps[g.R.Intn(len(reps))]
+		gone := cloneTopo(base)
+		how := g.R.Pick([]string{"fail", "disconnected", "absent"})
+		switch how {
+		case "fail":
+			gone.Nodes[ri].Flags = append(gone.Nodes[ri].Flags, "fail")
+		case "disconnected":
+			gone.Nodes[ri].Link = "disconnected"
+		default:
+			gone.Nodes = append(gone.Nodes[:ri], gone.Nodes[ri+1:]...)
+		}
+		back := cloneTopo(base)
+		state := "healthy"
+		switch g.R.Intn(3) {
+		case 0:
+			back.Nodes[ri].Loading = true
+			state = "loading"
+		case 1:
+			back.Nodes[ri].LinkDown = true
+			state = "linkdown"
+		}
+		p.Topos = append(p.Topos, gone, back)
+		p.Hist = append(p.Hist, HistStep{Topo: 1, Secs: 6, Mutated: "return:replica-" + how}, HistStep{Topo: 2, Secs: g.R.Range(1, 3), Mutated: "return:replica-back-" + state})
+		g.c14Prober(back)
+		return
 	}
 	steps := g.R.Range(1, 4)
 	if p.Variant == "long" {
@@ -303,8 +345,12 @@ func genC14(g *Gen) {
 		p.Hist = append(p.Hist, hs)
 		cur = nt
 	}
-	// the prober: after convergence, one write and one read per boundary slot of the final description plus random slots
-	final := p.Topos[len(p.Topos)-1]
+	g.c14Prober(p.Topos[len(p.Topos)-1])
+}
+
+// c14Prober: after convergence, one write and three reads per boundary slot of the final description plus random slots.
+func (g *Gen) c14Prober(final Topology) {
+	p := g.Plan
 	slots := map[int]bool{}
 	for _, n := range final.Nodes {
 		for _, r := range n.Slots {
@@ -467,6 +513,21 @@ func runC14(d *Driver, res *Result) {
 			}
 		}
 	}
+	// a node that was unusable or not listed in the description in force right before the final one, for at least 6 s, on
+	// every node and without unusable answers, has been dropped by a proxy that converges (this property's own bound is 3 s):
+	// the final description discovers it anew
+	if n := len(p.Hist); n >= 2 {
+		prevStep := p.Hist[n-2]
+		if prevStep.Secs >= 6 && len(prevStep.Lag) == 0 && len(prevStep.Script) == 0 && len(p.Hist[n-1].Lag) == 0 {
+			pt := &p.Topos[prevStep.Topo]
+			for a := range everAdmitted {
+				if pn := pt.ByAddr(a); pn == nil || !usableDesc(pn) {
+					delete(everAdmitted, a)
+					d.count("c14_rediscovered_nodes")
+				}
+			}
+		}
+	}
 	// route probing
 	c := d.Clients[0]
 	d.Hold[0] = false
@@ -602,6 +663,47 @@ func genC20(g *Gen) {
 		p.Events = append(p.Events, Event{Kind: "node-down", When: When{Step: 1}, Node: reps[g.R.Intn(len(reps))]})
 	}
 	reads := []string{"get", "strlen", "exists", "ttl", "type", "hgetall", "llen", "scard", "zcard", "smembers", "hlen", "pttl"}
+	if p.Variant == "recover" {
+		// a replica is unreachable for a while (dial failures, ban), comes back, and long after that (20 fake seconds: the pool
+		// monitor probes every 5 s) a long run of reads must reach it again like every other healthy replica
+		var reps []string
+		for _, n := range base.Nodes {
+			if !n.Master {
+				reps = append(reps, n.Addr)
+			}
+		}
+		victim := reps[g.R.Intn(len(reps))]
+		vm := base.ByID(base.ByAddr(victim).MasterID)
+		up := g.R.Range(1500, 4000)
+		p.Events = append(p.Events, Event{Kind: "node-down", When: When{Step: 1}, Node: victim},
+			Event{Kind: "node-up", When: When{AfterMs: up}, Node: victim})
+		// sparse reads of the victim's master during the outage (pauses longer than the retry/ban period)
+		c0 := ClientPlan{Addr: clientAddr(0), Mode: "open", GapMs: g.R.Range(150, 900), CloseAfterSent: -1, CloseAfterReplies: -1, StartStep: 3}
+		for ri, n := 0, g.R.Range(6, 24); ri < n; ri++ {
+			tok := Tok(0, ri)
+			rg := vm.Slots[0]
+			c0.Reqs = append(c0.Reqs, g.Single(tok, "get", Key(tok, 0, g.R.Range(rg[0], rg[1]), "")))
+		}
+		p.Clients = append(p.Clients, c0)
+		c1 := ClientPlan{Addr: clientAddr(1), Mode: "pipeline", CloseAfterSent: -1, CloseAfterReplies: -1, StartAfterMs: up + 20000}
+		ri := 0
+		for mi := 0; mi < m; mi++ {
+			rg := base.Nodes[mi].Slots[0]
+			for k := 0; k < 300; k++ {
+				tok := Tok(1, ri)
+				c1.Reqs = append(c1.Reqs, g.Single(tok, g.R.Pick(reads), Key(tok, 0, g.R.Range(rg[0], rg[1]), "")))
+				ri++
+			}
+		}
+		for i := len(c1.Reqs) - 1; i > 0; i-- {
+			j := g.R.Intn(i + 1)
+			c1.Reqs[i], c1.Reqs[j] = c1.Reqs[j], c1.Reqs[i]
+		}
+		p.Clients = append(p.Clients, c1)
+		p.Sched.SettleS = 4
+		p.Notes = append(p.Notes, fmt.Sprintf("replica %s down for %d ms", victim, up))
+		return
+	}
 	if p.Variant == "pattern" {
 		// regular request orders: one client repeats a short cycle of (master, read|write) steps - strict rotation over the
 		// masters, write-then-read pairs, runs of equal masters. A replica choice that is not independent of the request
@@ -699,11 +801,15 @@ func genC20(g *Gen) {
 
 func checkC20(d *Driver, res *Result) {
 	t := &d.P.Topos[0]
-	d.StdReplyCheck("C20", Relax{AllowProxyError: d.P.Variant == "banned"})
+	d.StdReplyCheck("C20", Relax{AllowProxyError: d.P.Variant == "banned" || d.P.Variant == "recover"})
 	readsAt := map[string]int{}
 	readsPerMaster := map[string]int{}
+	var from time.Duration // variant recover: only the reads of the late client count (long after the replica came back)
+	if d.P.Variant == "recover" && len(d.P.Clients) > 1 {
+		from = d.WorkStart.Sub(d.Start) + time.Duration(d.P.Clients[1].StartAfterMs)*time.Millisecond
+	}
 	for _, r := range d.C.Log {
-		if r.Kind != "data" {
+		if r.Kind != "data" || r.At < from {
 			continue
 		}
 		node := t.ByAddr(r.Node)
@@ -726,9 +832,12 @@ func checkC20(d *Driver, res *Result) {
 	}
 	down := map[string]bool{}
 	for _, e := range d.P.Events {
-		if e.Kind == "node-down" {
+		if e.Kind == "node-down" && d.P.Variant != "recover" {
 			down[e.Node] = true
 		}
+	}
+	if d.P.Variant == "recover" {
+		d.Counters["c20_recover_dial_refused"] = d.Counters["dial_refused"]
 	}
 	starved := 0
 	for _, n := range t.Nodes {
